@@ -1,7 +1,7 @@
 """C16 -- the second-generation parser builds a faithful parse tree."""
 import re
 
-from rules import hirq, mirq, listshape
+from rules import hirq, mirq, listshape, origins
 from rules.core import walk, norm_path, AnchorMissing
 
 LEVEL = "other"
@@ -470,8 +470,60 @@ def r8_literal_delimiters(run, F):
     run.ob("R8-LITERAL-DELIMITERS", "scan", True, "src/delta/parser/parse_tree_xml.rs", "%d greedy quote trims found" % n)
 
 
+FLAG_INSERTS = {
+    # (function, flag inserted) -- the only places where a declaration's flag set changes
+    ("parse_declaration", "Public"), ("parse_declaration", "External"), ("parse_struct_declaration", "OpaqueStruct"),
+}
+FLAG_MUTATORS = ("insert", "remove", "clear", "insert_all", "remove_all", "retain", "toggle")
+
+
+def r9_flags_flow(run, F):
+    """A declaration's flags in the tree are the flags written in the source: the set starts empty in parse_declaration, gains
+    Public / External there and OpaqueStruct for a bodiless struct, reaches every declaration parser unchanged as its `flags`
+    parameter, and that parameter (nothing else) is what ParseNode::DeclarationFlags stores.  Backward slice on the HIR
+    (rules/origins.py): flow-insensitive, so a second source of the stored set on any branch shows up as an extra origin."""
+    P = "delta::parser::"
+    stored = 0
+    inserts = set()
+    for p, b in sorted(F.lib.bodies.items()):
+        np = b.get("npath", "")
+        if "hir" not in b or not np.startswith(P + "parse_") or np.count("::") != 2:
+            continue
+        fn = np.split("::")[-1]
+        for n in walk(b["hir"]):
+            if n.get("k") == "Call" and str(hirq.callee(n) or "").endswith("ParseNode::DeclarationFlags"):
+                stored += 1
+                o = origins.origins(b["hir"], n["a"][0], b.get("params", ()))
+                fresh = sorted(c for k, c in (x[:2] for x in o) if k == "call" and (str(c).startswith("enumset::") or "EnumSet" in str(c) or str(c).endswith("Default>::default")))
+                run.ob("R9-FLAGS-FLOW", "%s|stored flags" % fn, ("param", "flags") in o and not fresh, F.where(b, n),
+                       "the flag set stored in the tree by %s must be its `flags` parameter (possibly extended), never a freshly built set; "
+                       "it derives from the parameter: %s, from set constructors: %s" % (fn, ("param", "flags") in o, fresh))
+            if n.get("k") == "MethodCall" and n.get("name") in FLAG_MUTATORS:
+                r = hirq.unwrap_trivial(n["recv"])
+                if r.get("k") == "Path" and r.get("res") == "flags":
+                    a = hirq.unwrap_trivial(n["a"][0]) if n.get("a") else {}
+                    key = (fn, n["name"] == "insert" and str(a.get("res", "?")).split("::")[-1] or n["name"])
+                    inserts.add(key)
+                    run.ob("R9-FLAGS-FLOW", "%s|%s %s" % (fn, n["name"], key[1]), key in FLAG_INSERTS, F.where(b, n),
+                           "flags.%s(%s) in %s is not one of the reviewed changes of a declaration's flag set %s" % (n["name"], key[1], fn, sorted(FLAG_INSERTS)))
+            if n.get("k") == "Call" and (hirq.callee(n) or "").startswith(P + "parse_") and (hirq.callee(n) or "").endswith("_declaration") and fn == "parse_declaration":
+                for a in n["a"]:
+                    ua = hirq.unwrap_trivial(a)
+                    if ua.get("k") == "Path" and ua.get("res") == "flags":
+                        o = origins.origins(b["hir"], a, b.get("params", ()))
+                        run.ob("R9-FLAGS-FLOW", "dispatch %s" % hirq.callee(n).split("::")[-1], o == {("call", "enumset::EnumSet::new")}, F.where(b, n),
+                               "the flags handed to %s start from the empty set (EnumSet::new) only; origins %s" % (hirq.callee(n).split("::")[-1], sorted(map(str, o))))
+    for fn, flag in sorted(FLAG_INSERTS - inserts):
+        b = F.body(P + fn)
+        mentioned = any(x.get("k") == "Path" and str(x.get("res", "")).endswith("DeclarationFlag::" + flag) for x in walk(b["hir"]))
+        run.ob("R9-FLAGS-FLOW", "%s|adds %s" % (fn, flag), mentioned, F.where(b), "%s no longer adds DeclarationFlag::%s to the flag set" % (fn, flag))
+    run.floor("R9-FLAGS-FLOW", 13, "5 stored flag sets, 3 inserts, 5 dispatches")
+    run.require(stored >= 5, "fewer than 5 ParseNode::DeclarationFlags constructions in the declaration parsers (%d)" % stored)
+
+
 def check(run):
     F = run.facts("A")
+    r9_flags_flow(run, F)
     r1_balance(run, F)
     r2_covers(run, F)
     r3_layout(run, F)
